@@ -60,6 +60,14 @@ def systematic():
     RS = {"op": "restart"}
     out.append({"origin": "rejection-evicts-after-a-restart", "steps": [L("alice", "p1"), RS, {"op": "change", "user": "alice", "pw": "p2"}, L("alice", "p1")] + down +
                 [L("alice", "p1"), L("alice", "p2")] + up + [L("alice", "p2"), RS] + down + [L("alice", "p2"), L("alice", "p1")]})
+    # the servers cannot even be connected to for a moment (somebody logs in meanwhile), come back, and the directory
+    # has a new password for alice by then: it is asked again at once, and its word is final
+    gone = [S(1, "refused"), S(2, "refused")]
+    back = [S(1, "up"), S(2, "up")]
+    out.append({"origin": "directory-back-after-refused-connections", "steps": [L("alice", "p1")] + gone + [L("bob", "p1"), L("alice", "p1")] + back +
+                [{"op": "change", "user": "alice", "pw": "p2"}, L("alice", "p1"), L("alice", "p2")] + gone + [L("alice", "p2"), L("alice", "p1")]})
+    out.append({"origin": "one-refused-one-answers", "steps": [L("alice", "p1"), S(1, "refused"), L("alice", "p1"), {"op": "change", "user": "alice", "pw": "p2"},
+                                                               L("alice", "p1"), S(2, "refused"), L("alice", "p1"), L("alice", "p2"), S(1, "up"), L("alice", "p2")]})
     SY, DO, DR = {"op": "sync"}, {"op": "dboutage"}, {"op": "dbrecover"}
     out.append({"origin": "replica-serves-during-store-outage", "steps": [L("alice", "p1"), SY] + down + [DO, L("alice", "p1"), L("alice", "p2"), DR] + up + [L("alice", "p1")]})
     out.append({"origin": "evicted-hash-leaves-replica", "steps": [L("alice", "p1"), SY, {"op": "change", "user": "alice", "pw": "p2"}, L("alice", "p1"), SY] + down +
